@@ -100,6 +100,12 @@ def wait_on_futures(futures):
                 raise RuntimeError(
                     "Worker process died: you may have run out of memory"
                 ) from exception
+            elif not isinstance(exception, Exception):
+                # SystemExit or KeyboardInterrupt raised inside a task would
+                # otherwise end the driving command as a normal exit
+                raise RuntimeError(
+                    f"Worker task terminated with {type(exception).__name__}"
+                ) from exception
             else:
                 raise exception
 
@@ -294,6 +300,11 @@ class ParallelWorkManager(contextlib.AbstractContextManager):
 
     def results_as_completed(self):
         for future in cf.as_completed(self.futures):
+            exception = future.exception()
+            if exception is not None and not isinstance(exception, Exception):
+                raise RuntimeError(
+                    f"Worker task terminated with {type(exception).__name__}"
+                ) from exception
             yield future.result()
 
     def __exit__(self, exc_type, exc_val, exc_tb):
